@@ -24,4 +24,9 @@ def fitCubicGen : Nat → List (V2 K) → V2 K → V2 K → K → List (Cub K)
 def fitCurveGen (points : List (V2 K)) (max_error : K) : Option (List (Cub K)) :=
   fit_curve (K := K) (P := V2 K) (C := Cub K) (fun ps st et e => fitCubicGen (ps.length + 1) ps st et e) fit_start_tangent fit_end_tangent points max_error
 
+/-- `fit_curve_loop::<Curve<Coord2>>` -/
+def fitCurveLoopGen (points : List (V2 K)) (max_error : K) : Option (List (Cub K)) :=
+  fit_curve_loop (K := K) (P := V2 K) (C := Cub K) (fun ps st et e => fitCubicGen (ps.length + 1) ps st et e)
+    fit_start_tangent fit_end_tangent points max_error
+
 end Model.FitKernel
